@@ -1,2 +1,244 @@
-(** C05 -- placeholder until PolyProofs lands: statements are added with their proofs. *)
-From PV Require Import Outcome Fock Poly.
+(** C05 -- the symbolic operator algebra (Pomerol::Operator) faithfully represents the
+    fermionic algebra.  Statements only; the proofs are in PV.CAR, PV.NormalizeProofs,
+    PV.AlgebraBasics and PV.AlgebraProofs.
+
+    Reading guide.  [Fock.act_mono m s] is the model of Operator::actRight(monomial, ket):
+    OOB, zero ([Done None]) or a sign and a basis state.  [coef_mono m s t] = <t|m|s> and
+    [coef_poly p s t] = <t|P|s> (PV.PolySem) are the matrix elements on the Fock space of bit
+    strings; [all_states M] enumerates the 2^M basis states.  The coefficient ring K is
+    arbitrary: [ring_ok] asks for the commutative-ring laws and for [kzero] (the model of the
+    C++ test |c| < 100 eps) to be the exact zero test. *)
+Require Import Bool List Arith ZArith Ring_theory.
+From PV Require Import Outcome Fock Poly PolySem CAR NormalizeProofs AlgebraBasics AlgebraProofs.
+Import ListNotations.
+
+(** * 1. The canonical anticommutation relations for the action on Fock states *)
+
+(** operators on different modes anticommute: a b |s> = - b a |s> *)
+Theorem anticommute_distinct : forall (a b : op) (s : state),
+  op_idx a <> op_idx b -> op_idx a < length s -> op_idx b < length s ->
+  exists r : option (bool * state),
+    act_mono [a; b] s = Done r /\
+    act_mono [b; a] s = Done (match r with Some (sg, u) => Some (negb sg, u) | None => None end).
+Proof. exact CAR.anticommute_distinct. Qed.
+Print Assumptions anticommute_distinct.
+
+(** Pauli principle: c_i c_i = 0 and c^+_i c^+_i = 0 *)
+Theorem same_op_twice : forall (o : op) (s : state),
+  op_idx o < length s -> act_mono [o; o] s = Done None.
+Proof. exact CAR.same_op_twice. Qed.
+Print Assumptions same_op_twice.
+
+(** c_i c^+_i + c^+_i c_i = 1: exactly one of the two products is non-zero and gives |s> back *)
+Theorem car_same_index : forall (i : nat) (s : state), i < length s ->
+  (act_mono [cann i; cdag i] s = Done (Some (false, s)) /\ act_mono [cdag i; cann i] s = Done None) \/
+  (act_mono [cann i; cdag i] s = Done None /\ act_mono [cdag i; cann i] s = Done (Some (false, s))).
+Proof. exact CAR.car_same_index. Qed.
+Print Assumptions car_same_index.
+
+(** * 2. normalize_and_insert (the normal-ordering bubble sort with contractions) *)
+
+(** it adds exactly c * (matrix of the raw monomial) to the target *)
+Theorem normalize_sound :
+  forall (K : Type) (k0 k1 : K) (kadd kmul ksub : K -> K -> K) (kopp : K -> K) (kzero : K -> bool),
+  ring_ok K k0 k1 kadd kmul ksub kopp kzero ->
+  forall (M : nat) (m : monomial) (c : K) (tgt tgt' : poly K) (s t : state),
+  mono_in_range M m -> length s = M ->
+  normalize K kadd kopp kzero m c tgt = Done tgt' ->
+  coef_poly K k0 k1 kadd kmul kopp tgt' s t =
+  kadd (coef_poly K k0 k1 kadd kmul kopp tgt s t) (kmul c (coef_mono K k0 k1 kopp m s t)).
+Proof. exact NormalizeProofs.normalize_sound. Qed.
+Print Assumptions normalize_sound.
+
+(** it terminates within the model's fuel and never fails *)
+Theorem normalize_total :
+  forall (K : Type) (kadd : K -> K -> K) (kopp : K -> K) (kzero : K -> bool)
+         (m : monomial) (c : K) (tgt : poly K),
+  exists tgt', normalize K kadd kopp kzero m c tgt = Done tgt'.
+Proof. exact NormalizeProofs.normalize_total. Qed.
+Print Assumptions normalize_total.
+
+(** it keeps the map sorted and only inserts normal-ordered keys *)
+Theorem normalize_wf :
+  forall (K : Type) (kadd : K -> K -> K) (kopp : K -> K) (kzero : K -> bool)
+         (m : monomial) (c : K) (tgt tgt' : poly K),
+  poly_sorted K tgt -> poly_normal K tgt -> normalize K kadd kopp kzero m c tgt = Done tgt' ->
+  poly_sorted K tgt' /\ poly_normal K tgt'.
+Proof. exact NormalizeProofs.normalize_wf. Qed.
+Print Assumptions normalize_wf.
+
+(** * 3. Linear operations *)
+
+Theorem padd_sound :
+  forall (K : Type) (k0 k1 : K) (kadd kmul ksub : K -> K -> K) (kopp : K -> K) (kzero : K -> bool),
+  ring_ok K k0 k1 kadd kmul ksub kopp kzero ->
+  forall (a b : poly K) (s t : state),
+  coef_poly K k0 k1 kadd kmul kopp (padd K kadd kzero a b) s t =
+  kadd (coef_poly K k0 k1 kadd kmul kopp a s t) (coef_poly K k0 k1 kadd kmul kopp b s t).
+Proof. exact AlgebraBasics.padd_sound. Qed.
+Print Assumptions padd_sound.
+
+Theorem psub_sound :
+  forall (K : Type) (k0 k1 : K) (kadd kmul ksub : K -> K -> K) (kopp : K -> K) (kzero : K -> bool),
+  ring_ok K k0 k1 kadd kmul ksub kopp kzero ->
+  forall (a b : poly K) (s t : state),
+  coef_poly K k0 k1 kadd kmul kopp (psub K ksub kopp kzero a b) s t =
+  ksub (coef_poly K k0 k1 kadd kmul kopp a s t) (coef_poly K k0 k1 kadd kmul kopp b s t).
+Proof. exact AlgebraBasics.psub_sound. Qed.
+Print Assumptions psub_sound.
+
+Theorem pneg_sound :
+  forall (K : Type) (k0 k1 : K) (kadd kmul ksub : K -> K -> K) (kopp : K -> K) (kzero : K -> bool),
+  ring_ok K k0 k1 kadd kmul ksub kopp kzero ->
+  forall (a : poly K) (s t : state),
+  coef_poly K k0 k1 kadd kmul kopp (pneg K kopp a) s t = kopp (coef_poly K k0 k1 kadd kmul kopp a s t).
+Proof. exact AlgebraBasics.pneg_sound. Qed.
+Print Assumptions pneg_sound.
+
+(** operator*=(MelemType), including the branch that clears the map when |alpha| is "zero" *)
+Theorem pscale_sound :
+  forall (K : Type) (k0 k1 : K) (kadd kmul ksub : K -> K -> K) (kopp : K -> K) (kzero : K -> bool),
+  ring_ok K k0 k1 kadd kmul ksub kopp kzero ->
+  forall (alpha : K) (a : poly K) (s t : state),
+  coef_poly K k0 k1 kadd kmul kopp (pscale K kmul kzero alpha a) s t =
+  kmul alpha (coef_poly K k0 k1 kadd kmul kopp a s t).
+Proof. exact AlgebraBasics.pscale_sound. Qed.
+Print Assumptions pscale_sound.
+
+(** * 4. Products *)
+
+(** operator*= never fails ... *)
+Theorem pmul_total :
+  forall (K : Type) (kadd kmul : K -> K -> K) (kopp : K -> K) (kzero : K -> bool) (a b : poly K),
+  exists ab, pmul K kadd kmul kopp kzero a b = Done ab.
+Proof. exact AlgebraProofs.pmul_total. Qed.
+Print Assumptions pmul_total.
+
+(** ... and the matrix of A*B is the product of the matrices on the M-mode Fock space *)
+Theorem pmul_sound :
+  forall (K : Type) (k0 k1 : K) (kadd kmul ksub : K -> K -> K) (kopp : K -> K) (kzero : K -> bool),
+  ring_ok K k0 k1 kadd kmul ksub kopp kzero ->
+  forall (M : nat) (a b ab : poly K) (s t : state),
+  poly_in_range K M a -> poly_in_range K M b -> length s = M -> length t = M ->
+  pmul K kadd kmul kopp kzero a b = Done ab ->
+  coef_poly K k0 k1 kadd kmul kopp ab s t =
+  ksum K k0 kadd (all_states M)
+       (fun u => kmul (coef_poly K k0 k1 kadd kmul kopp a u t) (coef_poly K k0 k1 kadd kmul kopp b s u)).
+Proof. exact AlgebraProofs.pmul_sound. Qed.
+Print Assumptions pmul_sound.
+
+Theorem commutator_sound :
+  forall (K : Type) (k0 k1 : K) (kadd kmul ksub : K -> K -> K) (kopp : K -> K) (kzero : K -> bool),
+  ring_ok K k0 k1 kadd kmul ksub kopp kzero ->
+  forall (M : nat) (a b r : poly K) (s t : state),
+  poly_in_range K M a -> poly_in_range K M b -> length s = M -> length t = M ->
+  commutator K kadd kmul ksub kopp kzero a b = Done r ->
+  coef_poly K k0 k1 kadd kmul kopp r s t =
+  ksub (ksum K k0 kadd (all_states M)
+          (fun u => kmul (coef_poly K k0 k1 kadd kmul kopp a u t) (coef_poly K k0 k1 kadd kmul kopp b s u)))
+       (ksum K k0 kadd (all_states M)
+          (fun u => kmul (coef_poly K k0 k1 kadd kmul kopp b u t) (coef_poly K k0 k1 kadd kmul kopp a s u))).
+Proof. exact AlgebraProofs.commutator_sound. Qed.
+Print Assumptions commutator_sound.
+
+Theorem anticommutator_sound :
+  forall (K : Type) (k0 k1 : K) (kadd kmul ksub : K -> K -> K) (kopp : K -> K) (kzero : K -> bool),
+  ring_ok K k0 k1 kadd kmul ksub kopp kzero ->
+  forall (M : nat) (a b r : poly K) (s t : state),
+  poly_in_range K M a -> poly_in_range K M b -> length s = M -> length t = M ->
+  anticommutator K kadd kmul kopp kzero a b = Done r ->
+  coef_poly K k0 k1 kadd kmul kopp r s t =
+  kadd (ksum K k0 kadd (all_states M)
+          (fun u => kmul (coef_poly K k0 k1 kadd kmul kopp a u t) (coef_poly K k0 k1 kadd kmul kopp b s u)))
+       (ksum K k0 kadd (all_states M)
+          (fun u => kmul (coef_poly K k0 k1 kadd kmul kopp b u t) (coef_poly K k0 k1 kadd kmul kopp a s u))).
+Proof. exact AlgebraProofs.anticommutator_sound. Qed.
+Print Assumptions anticommutator_sound.
+
+(** the algorithm's own output: {c_i, c^+_j} = delta_ij, {c_i, c_j} = 0, {c^+_i, c^+_j} = 0, as maps *)
+Theorem car_poly :
+  forall (K : Type) (k0 k1 : K) (kadd kmul ksub : K -> K -> K) (kopp : K -> K) (kzero : K -> bool),
+  ring_ok K k0 k1 kadd kmul ksub kopp kzero -> k1 <> k0 ->
+  forall i j : nat,
+  anticommutator K kadd kmul kopp kzero (p_c K k1 i) (p_cdag K k1 j) =
+    Done (if Nat.eqb i j then [([], k1)] else []) /\
+  anticommutator K kadd kmul kopp kzero (p_c K k1 i) (p_c K k1 j) = Done [] /\
+  anticommutator K kadd kmul kopp kzero (p_cdag K k1 i) (p_cdag K k1 j) = Done [].
+Proof. exact AlgebraProofs.car_poly. Qed.
+Print Assumptions car_poly.
+
+(** * 5. The equality and commutation tests *)
+
+(** the repaired comparison (monomial lengths compared first) never reads out of bounds *)
+Theorem poly_eq_total :
+  forall (K : Type) (ksub : K -> K -> K) (kzero : K -> bool) (a b : poly K),
+  exists r, poly_eq K ksub kzero true a b = Done r.
+Proof. exact AlgebraBasics.poly_eq_total. Qed.
+Print Assumptions poly_eq_total.
+
+(** ... and "equal" implies equal matrices *)
+Theorem poly_eq_sound :
+  forall (K : Type) (k0 k1 : K) (kadd kmul ksub : K -> K -> K) (kopp : K -> K) (kzero : K -> bool),
+  ring_ok K k0 k1 kadd kmul ksub kopp kzero ->
+  forall (a b : poly K), poly_eq K ksub kzero true a b = Done true ->
+  forall s t, coef_poly K k0 k1 kadd kmul kopp a s t = coef_poly K k0 k1 kadd kmul kopp b s t.
+Proof. exact AlgebraBasics.poly_eq_sound. Qed.
+Print Assumptions poly_eq_sound.
+
+(** Operator::commutes answering true implies that the matrices commute *)
+Theorem commutes_sound :
+  forall (K : Type) (k0 k1 : K) (kadd kmul ksub : K -> K -> K) (kopp : K -> K) (kzero : K -> bool),
+  ring_ok K k0 k1 kadd kmul ksub kopp kzero ->
+  forall (M : nat) (a b : poly K), poly_in_range K M a -> poly_in_range K M b ->
+  commutes K kadd kmul ksub kopp kzero true a b = Done true ->
+  forall s t, length s = M -> length t = M ->
+  ksum K k0 kadd (all_states M)
+       (fun u => kmul (coef_poly K k0 k1 kadd kmul kopp a u t) (coef_poly K k0 k1 kadd kmul kopp b s u)) =
+  ksum K k0 kadd (all_states M)
+       (fun u => kmul (coef_poly K k0 k1 kadd kmul kopp b u t) (coef_poly K k0 k1 kadd kmul kopp a s u)).
+Proof. exact AlgebraProofs.commutes_sound. Qed.
+Print Assumptions commutes_sound.
+
+(** the comparison as it was before "fix: compare monomial lengths in Operator equality"
+    (prefix comparison of monomials) is unsound: it answers true for c^+_0 and c^+_0 c^+_1 c_2 ... *)
+Theorem eq_prefix_refuted :
+  exists a b : poly Z,
+    poly_eq Z Z.sub (fun c => Z.eqb c 0) false a b = Done true /\
+    exists s t, coef_poly Z 0%Z 1%Z Z.add Z.mul Z.opp a s t <> coef_poly Z 0%Z 1%Z Z.add Z.mul Z.opp b s t.
+Proof. exact AlgebraBasics.eq_prefix_refuted. Qed.
+Print Assumptions eq_prefix_refuted.
+
+(** ... and it reads past the end of a shorter right-hand monomial *)
+Theorem eq_prefix_oob :
+  exists a b : poly Z, poly_eq Z Z.sub (fun c => Z.eqb c 0) false a b = OOB.
+Proof. exact AlgebraBasics.eq_prefix_oob. Qed.
+Print Assumptions eq_prefix_oob.
+
+(** * 6. Presets against their specialised matrix elements *)
+
+(** N::getMatrixElement(ket) = ket.count(), off-diagonal elements 0, agrees with the generic
+    operator sum_i n_i built by the constructor ([of_nat n] = 1 + ... + 1, n times, in K) *)
+Theorem N_shortcut_sound :
+  forall (K : Type) (k0 k1 : K) (kadd kmul ksub : K -> K -> K) (kopp : K -> K) (kzero : K -> bool),
+  ring_ok K k0 k1 kadd kmul ksub kopp kzero ->
+  forall (M : nat) (s : state), length s = M ->
+  coef_poly K k0 k1 kadd kmul kopp (p_N K k1 kadd kzero M) s s = of_nat K k0 k1 kadd (N_shortcut s) /\
+  forall t, t <> s -> coef_poly K k0 k1 kadd kmul kopp (p_N K k1 kadd kzero M) s t = k0.
+Proof. exact AlgebraBasics.N_shortcut_sound. Qed.
+Print Assumptions N_shortcut_sound.
+
+(** Sz::getMatrixElement(ket) = 0.5 * (#up occupied - #down occupied), off-diagonal elements 0,
+    agrees with the generic operator built by Sz(Nmodes, SpinUpIndices), for any up list with
+    indices below Nmodes (duplicates allowed) and any value of the constant written 0.5 *)
+Theorem Sz_shortcut_sound :
+  forall (K : Type) (k0 k1 : K) (kadd kmul ksub : K -> K -> K) (kopp : K -> K) (kzero : K -> bool),
+  ring_ok K k0 k1 kadd kmul ksub kopp kzero ->
+  forall (khalf : K) (M : nat) (ups : list nat) (s : state) (P : poly K),
+  length s = M -> Forall (fun i => i < M) ups ->
+  p_Sz K k1 kadd kmul ksub kopp kzero khalf M ups = Done P ->
+  coef_poly K k0 k1 kadd kmul kopp P s s =
+    ksub (kmul khalf (of_nat K k0 k1 kadd (fst (Sz_shortcut ups (sz_down M ups) s))))
+         (kmul khalf (of_nat K k0 k1 kadd (snd (Sz_shortcut ups (sz_down M ups) s)))) /\
+  forall t, t <> s -> coef_poly K k0 k1 kadd kmul kopp P s t = k0.
+Proof. exact AlgebraBasics.Sz_shortcut_sound. Qed.
+Print Assumptions Sz_shortcut_sound.
